@@ -12,7 +12,7 @@ RULE = ('random single-rooted ontologies containing HP:0000118 with alternate id
         'every ordered subset of the three validators in one ValidationRunner (built from a list, a tuple or a one-shot iterable, and asked twice), plus each validator alone. Results compared with the '
         'Lean model as a MULTISET of (level, category, ids named in the message in order) — wording is free, ids are extracted with a '
         'generic CURIE tokenizer; is_ok == (no results); deep snapshot (type, identifier.value, is_present) of the caller\'s items before/'
-        'after. Non-trivial: >= 1 finding expected, or an alternate id / excluded item is present; distinct by the whole case.')
+        'after. A few cases carry ids the ontology does not know (outside the quantifier): there the code may raise or answer as it likes, only the next case on a fresh validator counts. Non-trivial: >= 1 finding expected, or an alternate id / excluded item is present; distinct by the whole case.')
 
 THEOREM = 'Hpv.Props.C11.*'
 CURIE = re.compile(r'[A-Za-z]+:\d+')
@@ -118,7 +118,11 @@ def evaluate(ctx, cases, stream):
                     again = canon_results(runner.validate_all(seq))
                 impl = canon_results(vr)
                 after = snapshot(items)
-                if impl != model:
+                if isinstance(model, dict) and 'err' in model:
+                    # an id the ontology does not know: outside the property's quantifier, the code may raise or report what it likes
+                    ctx.count('unknown-id cases (outside the quantifier): the implementation answers, the model does not')
+                    problem = 'outside'
+                elif impl != model:
                     problem = {'what': 'results', 'impl': impl, 'model': model}
                 elif not c['direct'] and again != model:
                     problem = {'what': 'results of a second validate_all on the same runner', 'impl': again, 'model': model}
@@ -131,9 +135,7 @@ def evaluate(ctx, cases, stream):
             if isinstance(model, dict) and 'err' in model:
                 problem = 'both-raise'          # outside the property's quantifier (an id unknown to the ontology): model and code both fail
                 ctx.count('unknown-id cases on which model and implementation both raise')
-        if problem is None and isinstance(model, dict) and 'err' in model:
-            problem = {'what': 'model-raises-implementation-does-not', 'impl': impl, 'model': model}
-        if problem == 'both-raise':
+        if problem in ('both-raise', 'outside'):
             problem = None
         if problem:
             ctx.violation(f'{"+".join(c["validators"])}:{problem["what"]}',
